@@ -728,8 +728,32 @@ class Interp:
             self.event("setitem", base.tag, norm(sl), v)
             return
         if isinstance(sl, ast.Slice):
+            k = SliceV(self.eval(sl.lower, fr) if sl.lower is not None else None,
+                       self.eval(sl.upper, fr) if sl.upper is not None else None)
+        else:
+            k = self.eval(sl, fr)
+        if isinstance(k, SliceV):
+            if isinstance(base, Obj) and base.node is not None:
+                hit = self.repo.find_method(base.mod, base.node, "__setitem__")
+                if hit:
+                    m, cn, fn = hit
+                    return self.call(FuncV(fn, m, self_obj=base, cls=cn, qual=f"{cn.name}.__setitem__"), [k, v], {})
+            def ci(x, dflt):
+                if x is None:
+                    return dflt
+                if isinstance(x, R) and x.is_const():
+                    return int(x.const_value())
+                raise NotInFragment(f"non-constant slice bound in store {norm(node)}")
+            if isinstance(base, Arr2) and isinstance(v, Arr2):
+                n = len(base.rows)
+                lo, hi = ci(k.start, 0), ci(k.stop, n)
+                idx = list(range(n))[lo:hi]
+                if len(idx) != len(v.rows):
+                    raise _Raise(ExcV("ValueError", ["could not broadcast"]))
+                for i, r in zip(idx, v.rows):
+                    base.rows[i] = Arr(list(r.items))
+                return
             raise NotInFragment(f"slice store {norm(node)}")
-        k = self.eval(sl, fr)
         if isinstance(base, dict):
             k = self._key(k)
             old = base.get(k, MISSING)
@@ -1626,7 +1650,7 @@ BUILTINS: Dict[str, Any] = {k: BoundBuiltin(v) for k, v in {
 for _n in ("Exception", "ValueError", "TypeError", "IndexError", "KeyError", "NotImplementedError",
            "AttributeError", "ZeroDivisionError", "RuntimeError", "AssertionError", "StopIteration"):
     BUILTINS[_n] = BoundBuiltin((lambda n: (lambda it, args, kw: ExcV(n, list(args))))(_n))
-BUILTINS["slice"] = ExtV("slice")
+BUILTINS["slice"] = BoundBuiltin(lambda it, a, k: SliceV(*( [None, a[0]] if len(a) == 1 else list(a[:2]) )))
 BUILTINS["True"] = True
 BUILTINS["False"] = False
 BUILTINS["None"] = None
